@@ -124,13 +124,15 @@ PROPS = {
     "C05": {
         "level": "proof",
         "lean_modules": ["SqlizeModel.Props.C05"],
-        "theorems": ["Sqlize.C05.split_invariant", "Sqlize.C05.calls_invariant", "Sqlize.C05.rejected_unchanged", "Sqlize.C05.parse_before_edit"],
+        "theorems": ["Sqlize.C05.split_invariant", "Sqlize.C05.calls_invariant", "Sqlize.C05.rejected_unchanged", "Sqlize.C05.parse_before_edit",
+                     "Sqlize.C05.load_keeps_inv", "Sqlize.C05.rename_onto_existing_breaks", "Sqlize.readScript_inv", "Sqlize.fromString_inv"],
         "suites": [{"name": "script"}],
         "corr_points": ["load", "state", "dump"],
         "rule": SCRIPT_RULE,
         "trusted_base": COMMON_TB + PAIR_TB,
         "assumptions": ["scripts are well-formed on the reference engine and start from the empty schema"],
-        "explanation": "Proved for all inputs: split invariance of the reader model (state incl. cursor and pending position) and the rejection "
+        "explanation": "Proved for all inputs: every load (3 reader models, any split into calls) keeps slices and position maps consistent "
+                       "(Sqlize.C05.load_keeps_inv, side condition: renames onto fresh names); split invariance of the reader model (state incl. cursor and pending position) and the rejection "
                        "clause (by definition + regenerated fact that every Parser* function parses before it edits). The fidelity clause "
                        "(Sqlize.C05.Statement_partial) is decided by correspondence on white-box state + dump, and by the executable predicate "
                        "(dump -> grammar -> reference engine = independent reading of the script) on every case.",
@@ -138,7 +140,8 @@ PROPS = {
     "C09": {
         "level": "proof",
         "lean_modules": ["SqlizeModel.Props.C09"],
-        "theorems": ["Sqlize.C09.column_up_total", "Sqlize.C09.column_down_total", "Sqlize.C09.index_up_total"],
+        "theorems": ["Sqlize.C09.column_up_total", "Sqlize.C09.column_down_total", "Sqlize.C09.index_up_total",
+                     "Sqlize.C09.load_never_panics", "Sqlize.C09.primitives_total", "Sqlize.readScript_noPanic"],
         "suites": [{"name": "script"}, {"name": "pair"}],
         "corr_points": ["load", "state", "dump", "dump-down", "load-old", "load-new", "Diff", "StringUp", "StringDown"],
         "rule": SCRIPT_RULE + " | " + PAIR_RULE + " | C09: any panic recovered from a sqlize frame (load, state, dump up/down, hash, split loads, "
@@ -146,8 +149,10 @@ PROPS = {
                 "returns a value is also a correspondence break",
         "trusted_base": COMMON_TB + PAIR_TB + ["panics inside the third-party parsers on arbitrary bytes cannot be modelled: that clause is searched (malformed stream), not proved"],
         "assumptions": ["scripts are well-formed on the reference engine"],
-        "explanation": "Proved for all states: the emitters' explicit panic sites are exactly (create of an empty table, redefined index of an "
-                       "unprintable kind); reachability of panic sites from well-formed scripts (map consistency) is decided by correspondence: "
+        "explanation": "Proved for all inputs: loading never panics in the model — from the empty model every sequence of loads (3 reader models) "
+                       "returns or fails with a listed non-panic error, because the map invariant is preserved and makes every looked-up position a "
+                       "valid index (Sqlize.C09.load_never_panics). Proved for all states: the emitters' explicit panic sites are exactly (create of an empty table, redefined index of an "
+                       "unprintable kind); the emit side after Diff and the tie to the Go code are decided by correspondence: "
                        "the model returns Except.error exactly where Go panics, and every generated case is checked for recovered panics.",
     },
 
@@ -172,7 +177,8 @@ PROPS = {
     "C08": {
         "level": "proof",
         "lean_modules": ["SqlizeModel.Props.C08"],
-        "theorems": ["Sqlize.C08.calls_pure", "Sqlize.C08.pure_of_inv", "Sqlize.C08.arrange_identity", "Sqlize.C08.up_pure", "Sqlize.C08.down_pure", "Sqlize.migrate_state_of_stable", "Sqlize.sortByVal_canon"],
+        "theorems": ["Sqlize.C08.calls_pure", "Sqlize.C08.pure_of_inv", "Sqlize.C08.arrange_identity", "Sqlize.C08.up_pure", "Sqlize.C08.down_pure", "Sqlize.migrate_state_of_stable", "Sqlize.sortByVal_canon",
+                     "Sqlize.C08.loaded_pure", "Sqlize.C08.diffed_pure", "Sqlize.C08.diffed_pure_simple", "Sqlize.loadAndDiff_inv'", "Sqlize.Migration.diff_inv", "Sqlize.readScript_noPending"],
         "suites": [{"name": "calls", "repeat_processes": 1, "repeat_processes_thorough": 5}, {"name": "pair", "repeat_processes": 1, "repeat_processes_thorough": 3}, {"name": "script"}],
         "corr_points": ["StringUp", "StringDown", "StringUp-2nd", "state-diff", "state-after-outputs", "dump", "dump-down"],
         "rule": "calls suite: states from the pair space (loaded or diffed, 3 dialects x case x field-order option); all ordered pairs (quick) / "
@@ -183,8 +189,10 @@ PROPS = {
         "trusted_base": COMMON_TB + PAIR_TB + ["MermaidJs*/ArvoSchema are compared with a fresh instance's output here (their models are in C14/C15)"],
         "assumptions": ["old is not re-used after Diff"],
         "explanation": "Proved: under the map invariant Arrange is the identity for every map iteration order, hence output calls return the state "
-                       "unchanged and every call sequence is pure (Sqlize.C08.pure_of_inv); that reachable states satisfy the invariant and "
-                       "process-independence are decided by the calls / script suites (white-box maps, state after outputs) and fresh-process repeats.",
+                       "unchanged and every call sequence is pure (Sqlize.C08.pure_of_inv); every state reached by loading and Diff satisfies the invariant "
+                       "(Sqlize.C08.loaded_pure / diffed_pure: all primitives, reader steps, Table.Diff and Migration.Diff preserve it; side conditions: renames onto fresh "
+                       "names, positional adds of new columns). The tie to the Go code and process-independence are decided by the calls / script suites "
+                       "(white-box maps, state after outputs) and fresh-process repeats.",
     },
 
     "C12": {
